@@ -92,3 +92,28 @@ LAYOUTS = ['c', 'c', 'c', 'transposed-view', 'fortran', 'strided', 'leading-tran
 def vary(d, a, tag):
     """relayout ``a`` as decided by the auxiliary stream ``tag`` of the case"""
     return relayout(a, LAYOUTS[int(d.aux(tag).integers(0, len(LAYOUTS)))])
+
+
+def structure(d, a, tag, share=5):
+    """Hermitian positive definite stacks with *exact* structure in one case of
+    ``share`` (decided by the auxiliary stream ``tag``): exactly diagonal with
+    unequal entries (spatially uncorrelated sensor noise), an exact multiple of
+    the identity, or exactly real.  The condition number never exceeds that of
+    ``a`` (Cauchy interlacing for the diagonal), so the tolerances of the
+    callers, which are written in terms of it, stay valid."""
+    if getattr(d, 'epoch', 3) < 3 or a.shape[-1] != a.shape[-2]:
+        return a
+    aux = d.aux(tag)
+    if int(aux.integers(0, share)) != 0:
+        return a
+    kind = int(aux.integers(0, 3))
+    D = a.shape[-1]
+    eye = np.eye(D)
+    diag = np.real(np.einsum('...dd->...d', a))
+    if kind == 0:
+        out = diag[..., :, None] * eye
+    elif kind == 1:
+        out = diag[..., :1, None] * eye
+    else:
+        return np.ascontiguousarray(a.real).astype(a.dtype) if np.iscomplexobj(a) else a
+    return out.astype(a.dtype)
